@@ -489,6 +489,11 @@ def esc3(ctx, lib):
                       "(grex -r '..b..bc..b..bc' -> ^(?:(?:.{2}b){2}c){2}$)", E.loc())
 
 
+def pbody_switch_values(g):
+    """all case values of the switch a guard edge belongs to (as recorded by the guard), or []"""
+    return g.get("all_values") or []
+
+
 def esc4(ctx, lib):
     """ESC-4: the printer prints a grapheme's own text only where that text was escaped.  The function applying the escaper to a whole grapheme either does so
     unconditionally, or only when the grapheme has no nested repetitions (the nested ones are escaped instead); in the latter case every use of the own text
@@ -526,6 +531,16 @@ def esc4(ctx, lib):
         """True if this guard edge says 'the nested list of `subject` is empty', False if it says 'not empty', None otherwise"""
         t = guards.edge_truth(g)
         if t is None:
+            # `match list.len() { 0 => .., _ => .. }`
+            o = local.peel(g["origin"])
+            if o[0] == "call" and o[1].endswith("::len") and o[2]:
+                a = local.peel(o[2][0])
+                if a[0] == "field" and a[1] == nested and subject(local.peel(a[2])):
+                    if g["values"] == [0]:
+                        return True
+                    if g["values"] == ["otherwise"]:
+                        others = [x for x in pbody_switch_values(g) if x != "otherwise"]
+                        return False if others == [0] else None
             return None
         o = local.peel(g["origin"])
         neg = False
@@ -614,8 +629,13 @@ def esc4(ctx, lib):
             n += 1
             is_self = lambda a: a[0] == "param" and a[1] == 1
             dom = [g for g in guards.guards(pb, bi) if emptiness(g, is_self) is True and fi.cfg.edge_dominates(g["block"], g["succ"], bi)]
+            mentions = [g for g in guards.guards(pb, bi) if emptiness(g, is_self) is None and fi.cfg.edge_dominates(g["block"], g["succ"], bi)
+                        and any((x[0] == "field" and x[1] == nested) or (x[0] == "call" and x[1] in helper_truth) for x in local.walk(g["origin"]))]
             if dom:
                 ctx.ok("ESC-4", "%s:own text under the emptiness test of the nested repetitions" % pb.path, {"accessor": cb.path}, pb.loc(t.get("line")))
+            elif mentions:
+                ctx.undecided("ESC-4", pb.path, "the own text is used under a test on the nested repetitions that is not recognised as the emptiness test: %s"
+                              % local.show(mentions[0]["origin"])[:100], pb.loc(t.get("line")))
             else:
                 ctx.violation("ESC-4", (pb.path, "own text of a grapheme with nested repetitions"),
                               "the printer can print a grapheme's own text (%s) although its nested repetitions are not empty, but for such a grapheme only the nested "
@@ -682,6 +702,14 @@ def run(ctx):
     ctx.rule("VWS-1", "on every verbose path each character the engine ignores under (?x) (White_Space, '#') is rewritten, in literals and as a bracket-class member")
     ctx.rule("VWS-2", "each such rewrite denotes exactly the character it replaces")
     vws(ctx, prog, lib, common.role_fields(ctx, lib, want=common.FMT_ROLES), with_cas=False)
+    # LBL-3 (shared with C05): the trie lookup reuses an edge only under equal repetition maxima
+    from .C05 import lbl3
+    ctx.rule("LBL-3", "the trie lookup reuses an existing edge unchanged only under a dominating equality of the two labels' repetition maxima")
+    lbl3(ctx, lib)
+    # HIS-2 (shared with C10): build() does not consume or alter the builder's test cases, so every build() answers for the same set
+    from .C10 import his2
+    ctx.rule("HIS-2", "build() leaves the builder's state as it found it up to the idempotent canonicalisation of the test-case vector")
+    his2(ctx, lib)
     # ESCP-2 (b), shared with C11: the literal printer applies the escaper on every path before it prints a grapheme
     from .C11 import literal_printer_escapes
     _fee = find_escape_entry
@@ -712,6 +740,7 @@ def run(ctx):
     counting.cnt2(ctx, lib)
     counting.chr1(ctx, lib)
     counting.fch1(ctx, lib)
+    counting.scp1(ctx, lib)
     # the union's necessary conditions (shared with C02): each of them, when broken, loses a test case
     from .C02 import uni, uni4
     ctx.rule("UNI-1", "two alternatives are merged into a character class only under dominating single-code-point guards on both")
